@@ -299,6 +299,12 @@ def module_state(loaded):
             out[k] = (id(v), "dict", len(v), tuple(sorted(map(repr, v.keys())))[:20])
         elif isinstance(v, (list, set)):
             out[k] = (id(v), type(v).__name__, len(v), ())
+        elif callable(getattr(v, "cache_info", None)) and not isinstance(v, type):
+            # functools.lru_cache / functools.cache wrappers keep their table inside the wrapper: its size is module-level state
+            try:
+                out[k] = (id(v), "memo", v.cache_info().currsize, ())
+            except Exception:
+                out[k] = (id(v),)
         else:
             out[k] = (id(v),)
     return out
